@@ -1,6 +1,7 @@
 package main
 
 import (
+	"os"
 	"fmt"
 	"go/types"
 	"sort"
@@ -62,6 +63,9 @@ func (v Val) IsZero() bool { return v.S == nil }
 type OutOfSubset struct{ What string }
 
 func oos(format string, a ...interface{}) {
+	if os.Getenv("GOVC_DEBUG") != "" {
+		panic(fmt.Sprintf(format, a...))
+	}
 	panic(OutOfSubset{fmt.Sprintf(format, a...)})
 }
 
@@ -256,6 +260,9 @@ func (u *Universe) sortOf(t types.Type, key string) *Sort {
 		return SInt
 	}
 	if isBigIntLike(t) || isTime(t) {
+		return SInt
+	}
+	if key == "*cosmossdk.io/errors.Error" || key == "cosmossdk.io/errors.Error" {
 		return SInt
 	}
 	if n, ok := opaqueNamed[key]; ok {
